@@ -35,6 +35,7 @@ static void fill_file_cfg(Rng &g, Scn &s, int maxT, int maxChunks) {
   long len = chunks * ch + (g.chance(0.3) ? 0 : (long)g.below(ch));
   if (g.chance(0.15)) len = std::max<long>(0, chunks * ch - 1 - (long)g.below(16));   // body exact chunk multiple
   s.i["len"] = len;
+  s.i["warm"] = g.chance(0.4) ? 1 + (long)g.below(2) : 0;
   // the decrypt (and verify) of the stored / faulted file runs under a schedule of its own
   pick_sched(g, s, 2, T, true);
   pick_sched(g, s, 1, 1, false);
@@ -160,6 +161,21 @@ static Rec random_fault(Rng &g, long L, int T) {
   case 14: return mkrec("set", {8 + (long)g.below(2), (long)g.below(8)});        // mode bytes, mostly valid numbers
   default: return mkrec("flip", {10 + (long)g.below(38), (long)g.below(8)});     // tag / zero-fill area
   }
+}
+
+// With "warm" set, the authentic file is verified and decrypted first, in the same process and under the same key:
+// acceptance must not depend on what was accepted before (a verification cache keyed on part of the file would show).
+static void warm_up(const Scn &s, const Baseline &B) {
+  if (!s.geti("warm")) return;
+  g_stats.add("probe.authentic_file_accepted_first(warm-up)", 1);
+  SimFile fin, fout;
+  fin.data = B.F;
+  OpSpec d = B.e;
+  d.kind = s.geti("warm") == 1 ? OP_VER : OP_DEC;
+  d.fin = &fin; d.fout = &fout;
+  d.fsize = B.F.size();
+  d.sc = sc_canonical((long)B.F.size(), B.T);
+  run_slot(s, d, 5, "warm-up", HANG_SKIP);
 }
 
 // informative difference between the stored file and the faulted one
@@ -345,6 +361,7 @@ static Verdict run_C05(const Scn &s) {
     if (!dg.informative) return skipv("fault-produced-another-authentic-file");
     if (dg.only_byte8) { d = dg; B.F = B.G; B.P = B.P2; }
   }
+  warm_up(s, B);
   Verdict v;
   v.case_hash = case_hash_faults(s);
   v.nontrivial = true;
@@ -479,6 +496,7 @@ static Verdict run_C11(const Scn &s) {
   bool tagok = tag_valid_ref(F2, key);
   Diff d = diff_files(B.F, F2, B.e.hmode);
   if (tagok && d.informative) return skipv("valid-tag-but-not-produced-by-encryption(outside-domain)");
+  warm_up(s, B);
   VD r = verify_and_decrypt(s, F2, key, B.T, HANG_VIOLATION);
   Verdict v;
   v.case_hash = case_hash_faults(s);
@@ -525,6 +543,7 @@ static Verdict run_C12(const Scn &s) {
     Diff d = diff_files(B.F, F2, B.e.hmode);
     if (d.only_byte8 && F2[8] <= 4 && memcmp(key, B.e.key, 16) == 0) return skipv("known-finding-K1-region(left-to-C05)");
   }
+  warm_up(s, B);
   VD r = verify_and_decrypt(s, F2, key, B.T, HANG_VIOLATION);
   Verdict v;
   v.case_hash = case_hash_faults(s);
